@@ -394,7 +394,7 @@ fn eval_c20(case: &Case, acc: &Acc) -> Vec<Violation> {
                 Err(p) => out.push(vio("option_causes_panic", format!("{} | {name} input {:?}: {}", case.short, text, panic_site(&p)), case, Some(text), json!({}))),
             }
         }
-        if out.len() > 5 {
+        if prune_by_class(&mut out, 3) > 60 {
             break;
         }
     }
